@@ -115,6 +115,12 @@ def evOp (st : EvSt) (op : String) : Option (EvSt × Option String) :=
                hPaste := if s.paste then .active else .unset, hKey := .active }) (some (if st.running then "err" else "ok"))
   | ["key", n, sh, al, ct, me] =>
     some (st, some (fireTok st.hKey (onKey Gen.webKeys (bytesToString (unhex n)) (sh = "1") (al = "1") (ct = "1") (me = "1"))))
+  | ["burst", n] =>   -- n key callbacks 'a','b',… fired back to back: every one becomes an event, in order
+    let evs := (List.range (toNat! n)).filterMap fun i =>
+      onKey Gen.webKeys (String.singleton (Char.ofNat (97 + i % 26))) false false false false
+    some (st, some (match st.hKey with
+      | .undefined => "[undef]" | .unset => "[]"
+      | .active => "[" ++ ",".intercalate (evs.map showEv) ++ "]"))
   | ["click", x, y, b, sh, al, ct] =>
     some (st, some (fireTok st.hClick (onMouse st.flags (toInt! x) (toInt! y) (toInt! b) (sh = "1") (al = "1") (ct = "1"))))
   | ["move", x, y, b, sh, al, ct] =>
